@@ -30,6 +30,30 @@ def canon_real(r):
             "links": sorted(sorted(e2["path"] for e2 in r["fs"] if e2["ino"] == e["ino"]) for e in r["fs"])}
 
 
+def shared_one(chk, sseed):
+    """the point excluded by `Disjoint`: byte-identical sibling indices sharing a by-hash target"""
+    rng = random.Random(sseed)
+    sc = l1.gen_shared_scenario(rng)
+    replay = l1.scenario_to_json(sc)
+    results = []
+    for k in range(8):
+        r, files = l1.run_real(sc, chooser=vloop.RandomChooser(rng.randrange(1 << 30)), nthreads=rng.choice([2, 4, 8]))
+        cr = canon_real(r)
+        cr.pop("counters")          # which sibling transfers and which one links is not part of the property
+        cr["downloaded"] = sorted(cr["downloaded"] + cr.pop("unmodified"))
+        results.append(cr)
+        viol = l1.monitor_c05(sc, r, files)
+        if viol:
+            chk.violation("shared-target:" + viol[0][0], dict(replay, schedule_index=k), viol[0][1])
+            return
+    if any(x != results[0] for x in results[1:]):
+        diff = [k for k in results[0] if any(x[k] != results[0][k] for x in results[1:])]
+        chk.violation("shared-target:schedule-dependent", replay, f"byte-identical siblings sharing a by-hash target: result differs between schedules in {diff}")
+    chk.count("shared_target_scenarios")
+    chk.evaluated(("shared", l1.classify(sc)), sample={"shared_target": True, "files": len(sc["descs"])})
+    chk.traces += 8
+
+
 def l1_one(chk, sseed):
     rng = random.Random(sseed)
     sc = l1.gen_scenario(rng)
@@ -146,6 +170,8 @@ def e2e_one(chk, sseed):
 def run(chk, tier, rng):
     for i in range(150 if tier == "quick" else 3000):
         l1_one(chk, f"C15-{chk.seed}-{i}")
+    for i in range(40 if tier == "quick" else 1000):
+        shared_one(chk, f"C15s-{chk.seed}-{i}")
     for i in range(10 if tier == "quick" else 300):
         e2e_one(chk, f"C15e-{chk.seed}-{i}")
     chk.assumptions += ["distinct queue entries never share a target path or URL (Disjoint); the excluded point is finding F-C05a",
